@@ -129,5 +129,6 @@ def tree_clip_by_global_norm(pytree: PyTree, max_norm: float) -> PyTree:
     A potentially clipped pytree.
   """
   global_norm = tree_l2_norm(pytree)
-  scale = jnp.minimum(1, max_norm / global_norm)
+  # A tree of norm zero is within every bound; avoid 0 / 0 when max_norm is 0.
+  scale = jnp.minimum(1, max_norm / jnp.where(global_norm == 0, 1, global_norm))
   return jax.tree_util.tree_map(lambda t: scale * t, pytree)
